@@ -369,11 +369,11 @@ fn reader_exec(ctx: &Ctx, kind: Kind, msgs: &[(Shape, Val, Vec<u8>, usize)], scr
 }
 
 pub fn run(ctx: &Ctx) {
-    let bound = if ctx.quick() { 2 } else { 3 };
-    let full_limit = if ctx.quick() { 4 } else { 5 };
+    let bound = if ctx.quick() { 3 } else { 4 };
+    let full_limit = if ctx.quick() { 5 } else { 6 };
     // values: corpus of small shapes + hand-picked borrowed-heavy shapes
     let mut items: Vec<(Shape, Val)> = vec![];
-    for (s, vals) in value_corpus(2, 64, if ctx.quick() { 6 } else { 10 }) {
+    for (s, vals) in value_corpus(3, 64, if ctx.quick() { 4 } else { 10 }) {
         for v in vals {
             items.push((s.clone(), v));
         }
@@ -470,7 +470,7 @@ pub fn run(ctx: &Ctx) {
             for scratch_len in [need, need + 1, need.saturating_sub(1), msgs[0].3] {
                 let order = (2u64 << 40) | (i as u64) << 16 | scratch_len as u64;
                 let mut run = |p: &[u8]| reader_exec(ctx, kind, msgs, scratch_len, p, order);
-                let mut ex = Explorer { bound: if ctx.quick() { 1 } else { 2 }, executions: 0, max_points: 0, run: &mut run };
+                let mut ex = Explorer { bound: if ctx.quick() { 2 } else { 3 }, executions: 0, max_points: 0, run: &mut run };
                 ex.explore(vec![]);
                 execs.fetch_add(ex.executions, Ordering::Relaxed);
                 maxp.fetch_max(ex.max_points as u64, Ordering::Relaxed);
